@@ -58,6 +58,15 @@ Theorem C01_fgmres_residual_recomputed (S : Scalar) (A P : vec S -> vec S) prm f
 Proof. intros Hp H. exact (proj2 (proj2 (fgmres_result_spec A P prm f x0 junk nr r w Hp H))). Qed.
 Print Assumptions C01_fgmres_residual_recomputed.
 
+(* LGMRES(M,K) (model with the ring buffer of augmentation vectors as explicit object state):
+   iteration bound, fuel, and recomputed residual on every exit path, for every incoming state *)
+Theorem C01_lgmres_bounded_and_recomputed (S : Scalar) (A P : vec S -> vec S) prm f x0 st nr r w :
+  k_prologue norm_b prm f = Go nr -> lgmres A P prm f x0 st = (KOk r, w) ->
+  k_it r <= p_maxiter prm /\ k_oof r = false /\
+  k_res r = true_res norm_b A P (p_left prm) f (k_x r) / nr.
+Proof. exact (lgmres_result_spec A P prm f x0 st nr r w). Qed.
+Print Assumptions C01_lgmres_bounded_and_recomputed.
+
 (* ---- A1 (ring): the recursively updated vector of CG / BiCGStab IS the residual of the iterate ---- *)
 Section Ring.
 Variable S : Scalar.
